@@ -93,6 +93,45 @@ func genEnc(cfg Config, emit func(string, bool, []string)) {
 			fmt.Sprintf("cmp %s %s %s %s", hx(p2), hx(s2), hx(p1), hx(s1)),
 		})
 	}
+	// medium-length keys (7-20 bytes) over the bytes the escaping cares about, with and without the
+	// separator byte, and pairs that differ only in how an escape sequence could be misread
+	ops = nil
+	mid := func(withZero bool) []byte {
+		k := make([]byte, 7+r.IntN(14))
+		for i := range k {
+			al := []byte{0x01, 0x01, 0x02, 'a', 0xff, 0x03}
+			if withZero {
+				al = append(al, 0x00, 0x00)
+			}
+			k[i] = al[r.IntN(len(al))]
+		}
+		return k
+	}
+	for c := 0; c < n/2; c++ {
+		k1 := mid(c%3 == 0)
+		var k2 []byte
+		switch c % 4 {
+		case 0:
+			k2 = mid(c%3 == 1)
+		case 1:
+			// what an unescaped 0x01 0x01 would be read as
+			tail := mid(false)
+			k1 = append([]byte{0x00}, tail...)
+			k2 = append([]byte{0x01, 0x01}, tail...)
+		case 2:
+			tail := mid(false)
+			k1 = append([]byte{0x01}, tail...)
+			k2 = append([]byte{0x01, 0x02}, tail...)
+		case 3:
+			k2 = append(append([]byte{}, k1[:len(k1)/2]...), mid(false)...)
+		}
+		ops = append(ops, "enc "+hx(k1), "enc "+hx(k2),
+			fmt.Sprintf("cmp x70 %s x70 %s", hx(k1), hx(k2)),
+			fmt.Sprintf("cmp %s x73 %s x73", hx(k1), hx(k2)),
+			fmt.Sprintf("comp %s %s", hx(k1), hx(k2)))
+	}
+	emit("medium-length-keys", true, ops)
+
 	// targeted: same secondary, prefix-related primaries around the 256-byte
 	// encoded length (the uint16 length suffix starts to compete with key bytes)
 	ops = nil
